@@ -282,6 +282,28 @@ def check_formula_language(ctx, rule, fname, site, mode):
                ("'%s' written to SBML and read back keeps bioscrape's meaning" % name), detail, fp=theirs)
 
 
+def check_definitions_first(ctx, rule):
+    """model names win over the parser's built-ins only for names that are in the document when a formula is parsed (the settings hold
+    the model, the lookup happens at parse time): in generate_sbml_model every add_species / add_parameter call therefore comes, on
+    every path, before the first add_reaction / add_rule call."""
+    f = ctx.fn('types:Model.generate_sbml_model')
+    definers, parsers = ('add_parameter', 'add_species'), ('add_reaction', 'add_rule')
+    pos = {}
+    for i, st in enumerate(f.body):
+        for n in ast.walk(st):
+            if isinstance(n, ast.Call) and src(n.func).split('.')[-1] in definers + parsers:
+                pos.setdefault(src(n.func).split('.')[-1], []).append((i, n))
+    missing = [x for x in definers + parsers if x not in pos]
+    if missing:
+        raise AnalysisError('generate_sbml_model: no call of %s' % missing)
+    first_parse = min(i for x in parsers for i, _ in pos[x])
+    late = sorted({x for x in definers for i, n in pos[x] if i >= first_parse})
+    ctx.ob(rule, 'model-names/defined-first', not late, ctx.loc('types', f),
+           'every species and parameter is in the document before the first kinetic law or rule formula is parsed against it',
+           '' if not late else '%s is called after formulas have been parsed: a model name that is also a parser built-in (time, pi, avogadro ...) '
+           'is then written as the built-in' % ', '.join(late))
+
+
 # ---- the other direction: libsbml's printers, whose text bioscrape's reader parses -----------------------------------------------
 # (SBML_formulaToL3String / SBML_formulaToString as documented and as observed with the libsbml the repository installs)
 L3_PRINTER = {'functions': 'ln, exp, abs, min, max are printed under those names (ln with one argument)',
@@ -462,7 +484,8 @@ def check(ctx):
         ctx.prog.mod(m_)
     check_parameter_ids(ctx, 'R14.1-identifiers')
     check_formula_language(ctx, 'R14.6-formula-language', 'add_reaction', 'kinetic-law', 'sbml')
-    ctx.floor('R14.6-formula-language', 8)
+    check_definitions_first(ctx, 'R14.6-formula-language')
+    ctx.floor('R14.6-formula-language', 9)
     # "the deterministic rate in a deterministic export and the combinatorial stochastic rate in a stochastic export": the templates
     # above are selected by add_reaction's `stochastic` argument, which must be the export's flag for every reaction, together with
     # the reaction's own 8 fields (C12 R12.3) - re-emitted here
